@@ -346,6 +346,7 @@ func sameImage(want, got any) bool {
 
 // C13: descriptor-driven decoding
 func runC13(c *Ctx) {
+	hangs := 0
 	c13Header(c)
 	vg := &ValGen{r: c.rng}
 	n := scale(c, 400, 10000)
@@ -391,6 +392,44 @@ func runC13(c *Ctx) {
 			c.add(fmt.Sprintf("K13 %s %s [%s] %v", tc.head(tc.Depth+3), coqBytes(data), strings.Join(rec.evs, "; "), r.err == nil),
 				desc, shapeClass(tc.T, 3)+"/"+tc.Cfg.String(), hasContainerAndNonZero(v))
 			c.count(fmt.Sprintf("walk_ok_%v", r.err == nil))
+			// the walker on damaged input: same calls so far and same verdict as the model,
+			// and it returns (the walk totality theorem is about the model)
+			for k := 0; k < 2 && len(data) > 1; k++ {
+				bad := append([]byte{}, data...)
+				switch c.rng.Intn(4) {
+				case 0:
+					bad = bad[:1+c.rng.Intn(len(bad)-1)]
+				case 1:
+					bad[c.rng.Intn(len(bad))] ^= byte(1 << uint(c.rng.Intn(8)))
+				case 2:
+					// a huge count / length spliced in at a random position
+					at := c.rng.Intn(len(bad))
+					huge := [][]byte{{0xff, 0xff, 0xff, 0xff, 0x0f}, {0xff, 0xff, 0xff, 0xff, 0xff, 0xff, 0xff, 0xff, 0x3f}, {0x80, 0x80, 0x80, 0x80, 0x10}}[c.rng.Intn(3)]
+					bad = append(append(append([]byte{}, bad[:at]...), huge...), bad[at:]...)
+				default:
+					bad = append(bad, bad[:1+c.rng.Intn(len(bad))]...)
+				}
+				var recb recorder
+				done := make(chan callResult, 1)
+				go func() { done <- safely(func() error { return d.Read(&recb, bad) }) }()
+				descb := fmt.Sprintf("walk-damaged cfg=%s type=%s data=%x", tc.Cfg, tc.T, bad)
+				select {
+				case rb := <-done:
+					if rb.panicked {
+						c.native = append(c.native, NativeViolation{Case: descb, What: "Descriptor.Read panicked: " + rb.msg, Class: "walk-panic"})
+						break
+					}
+					c.add(fmt.Sprintf("K13 %s %s [%s] %v", tc.head(tc.Depth+3), coqBytes(bad), strings.Join(recb.evs, "; "), rb.err == nil),
+						descb, "damaged/"+shapeClass(tc.T, 2), true)
+					c.count(fmt.Sprintf("walk_damaged_ok_%v", rb.err == nil))
+				case <-time.After(10 * time.Second):
+					c.native = append(c.native, NativeViolation{Case: descb, What: "Descriptor.Read did not return within 10 s", Class: "walk-hang"})
+					hangs++
+				}
+				if hangs >= 2 {
+					break
+				}
+			}
 			// restored descriptors give the same calls
 			for name, dd := range map[string]*plenccodec.Descriptor{"plenc": &dPlenc, "json": &dJSON} {
 				var rec2 recorder
